@@ -438,6 +438,16 @@ func body(c *kernel.Ctx) {
 		if dq == want && want == 1 {
 			verifrt.Probe("crafted-" + a.class)
 		}
+		if a.class == "window/first-slot-of-epoch-beyond-window" && dq != want {
+			// the case is built from the epoch at the start of this enumeration; if an epoch boundary was crossed
+			// before the target looked at the message (stalls, delivery times), the window - which only ever grows -
+			// now includes the duty and admitting it is right: no verdict (seen once in 941 runs on the unchanged tree)
+			nowEpoch := uint64(time.Since(cl.Chain.GenesisTime)/cl.Cfg.SlotDuration) / cl.Cfg.SlotsPerEpoch
+			if a.msg.GetMsg().GetDuty().GetSlot()/cl.Cfg.SlotsPerEpoch <= nowEpoch+2 {
+				verifrt.Probe("gater-window-rolled-during-case")
+				continue
+			}
+		}
 		if dq != want {
 			if want == 1 {
 				c.Violate("C05", "control-rejected", "crafted-valid-message-not-accepted/"+a.class, "a validly signed message (%s) for a duty inside the allowed window was not queued (instances %+d, queued %+d)", a.class, di, dq)
